@@ -438,7 +438,7 @@ class LazyIndexer:
                     # Only do post-selection on this dimension if non-trivial (otherwise an unnecessary copy happens)
                     if not (isinstance(post_select[dim], slice) and post_select[dim] == slice(None)):
                         # Prepend the appropriate number of colons to the selection to place it at correct dimension
-                        chunk = chunk[[slice(None)] * dim + [post_select[dim]]]
+                        chunk = chunk[tuple([slice(None)] * dim + [post_select[dim]])]
                 # Determine appropriate output selection and insert chunk into output array
                 out_select = [select[segment][2] for select, segment in zip(selection, chunk_index)]
                 out_select = tuple([select for select in out_select if select is not None])
